@@ -44,6 +44,9 @@ def _gen_marathon(rng):
         g = pools.tiny_game(rng) if i < 2 else (pools.nosol_game(rng) if i == 2 else pools.stopping_game(rng, 4, 6))
         pool.append({"name": "m%d" % i, "desc": enc(g), "tag": "marathon"})
     opl = [{"op": "batch", "games": rng.sample(range(4), rng.randint(1, 3))} for _ in range(rng.randint(60, 150))]
+    for op in opl:
+        if rng.random() < 0.2:
+            op["scribble"] = True
     return {"cfg": {"klass": "marathon", "fd_spare": 48}, "pool": pool, "ops": opl}
 
 
@@ -106,6 +109,8 @@ def gen(rng, tier, ctx):
         env = common.gen_env(rng, faulty=(klass != "plain"))
         if r < 0.55:
             op = {"op": "batch", "games": games}
+            if rng.random() < 0.25:
+                op["scribble"] = True       # the caller edits the result dictionary it was handed
             if klass == "faulty" and rng.random() < 0.2:
                 op["interrupt"] = {"frac": rng.random()}     # Ctrl-C inside the batch; the session goes on
                 if rng.random() < 0.4:
@@ -368,6 +373,8 @@ def execute(spec, w, ctx):
             else:
                 v = check_entries(i_op, spec, games, out["value"], ctx, w, states)
                 _clock_probe(w, out, out["value"])
+                if op.get("scribble"):
+                    w.fired("caller-edits-returned-value", ops.scribble(out["value"], ops.container_ids(live)))
         elif kind == "cli":
             names = [pool[g]["name"] for g in games]
             if len(set(names)) != len(names):
